@@ -281,7 +281,7 @@ class ModelDriver:
             right = self.models.get(op["t"])
             if right is None or op["t"] == s:
                 raise Skip("no second model")
-            model.merge(right, inplace=True, objective="left")
+            model.merge(right, inplace=True, objective=op.get("obj", "left"))
             return None
         if a == "AddMetabolites":
             ms = [self.new_met(m) for m in op["ms"]]
@@ -555,12 +555,21 @@ class ModelDriver:
             for x in op["members"]:
                 if x in self.rx:
                     members.append(self.get_rxn(model, x))
-                elif x in self.met:
-                    members.append(self.get_met(model, x))
+                elif x in self.met:     # a metabolite that is not in the model yet comes along with the group
+                    members.append(model.metabolites.get_by_id(self.met[x]) if self.met[x] in model.metabolites
+                                   else self.new_met(x))
                 else:
                     members.append(self.get_gene(model, x))
             grp = cobra.core.Group(self.grp[op["g"]], members=members)
             model.add_groups([grp])
+            return None
+        if a in ("GroupAddMembers", "GroupRemoveMembers"):
+            if self.grp[op["g"]] not in model.groups:
+                raise Skip("no such group")
+            grp = model.groups.get_by_id(self.grp[op["g"]])
+            members = [self.get_rxn(model, x) if x in self.rx else self.get_met(model, x) if x in self.met
+                       else self.get_gene(model, x) for x in op["members"]]
+            (grp.add_members if a == "GroupAddMembers" else grp.remove_members)(members)
             return None
         if a == "RemoveGroup":
             if self.grp[op["g"]] in model.groups:
